@@ -21,7 +21,8 @@ def main(argv=None):
     for r in lem:
         applied.update(r.get("contracts_applied", []))
     # the lemmas apply the contracts of the three `received` methods: their frame (modifies) clauses are part of what is relied on
-    world.report(ck, res, select=lambda n: any(k in n for k in KEEP) or "/frame:" in n, also_used=applied)
+    from vlib.modelreplay import make_replayer
+    world.report(ck, res, select=lambda n: any(k in n for k in KEEP) or "/frame:" in n, also_used=applied, replayer=make_replayer(ck, MODS))
     world.report(ck, lem, select=lambda n: True)
 
     payload = {"max_cuts": 1, "random_k": 40, "seed": 2} if ck.tier == "quick" else {"max_cuts": 2, "random_k": 400, "seed": 2}
